@@ -9,10 +9,10 @@ BFS = ("explicit-state breadth-first search over operation histories executed on
        "(in-process replay on fresh objects, canonical-state merging), compared step by step with a reference model")
 CHECKS = {
     "C01": ("model_checking", "hist", BFS + "; oracle: std::vector-of-tuples model read through operator[], front/back, iterators, get<I>",
-            "all histories of construction/emplace_back/pop_back/erase/clear/reserve up to the depth bound (or to the fixpoint of the bounded domain) for 8 (thorough: 19) lists x junk-filled/zeroed memory; bounded capacities/counts; one known finding (K1) prunes histories behind overlapping element-wise relocation",
+            "all histories of construction/emplace_back/pop_back/erase/clear/reserve up to depth 8 (8 primary lists) / 6 (the other 11 lists) in quick, depth 7 for all 19 lists x {AE, NP} x both block-base alignments in thorough, capacities <= 3 (4), varying counts <= 2 (3), zeroed and junk-filled memory; one known finding (K1) stops the exploration behind an overlapping element-wise relocation",
             "2.4, 3/C01"),
     "C02": ("model_checking", "layout+hist", "exhaustive enumeration of a generated family of parameter lists x every size distribution at exactly the declared capacity/budget, plus " + BFS + "; oracle: AddressSanitizer guard zones around exactly-sized allocator blocks and address-range checks",
-            "930 lists (thorough: +5832 three-parameter lists) x all fixed sizes <= 3 x N <= 3 x all count distributions <= 3, both block-base alignments; history part bounded like C01",
+            "layout family: 1410 lists in quick (all lists of <= 2 logical parameters over 10 (size, AlignAs) types + 480 three-parameter lists), 16638 in thorough (3 count types, every three-parameter list over 8 types, a four-parameter family) x all fixed sizes <= 3 x N <= 3 (4) x all count distributions <= 3 (count cells <= 8), both block-base alignments; history part: all 19 lists, depth 5-6",
             "3/C02"),
     "C03": ("model_checking", "layout+hist+pair+elem", "same enumerations as C02; oracle: address of every AlignAs object modulo A in every state (block bases aligned to exactly the storage alignment)",
             "alignments up to 16; reachable states of the bounded history/pair/element explorations", "3/C03"),
@@ -23,31 +23,31 @@ CHECKS = {
     "C06": ("model_checking", "hist+pair+elem", BFS + "; oracle: live-object registry keyed by address inside instrumented value types (construct-on-live, use/destroy of dead objects, relocation without constructor, live set == logically held set, terminal emptiness)",
             "lists with tracked value types; bounded histories; known finding K1", "3/C06"),
     "C07": ("model_checking", "pair+elem", BFS + " over two vectors and up to three elements; oracle: allocator ledger (unknown/double/size-mismatched/foreign-arena deallocation, operator new by-passing the allocator) and an empty ledger after destroying everything, evaluated after every transition",
-            "3 allocator kinds x 4 (thorough: 19) lists, depth 4 (5)", "3/C07"),
+            "3 allocator kinds x 10 (thorough: 19) lists, depth 4-5", "3/C07"),
     "C08": ("model_checking", "pair+elem", BFS + " for every combination of the propagation traits; oracle: std::allocator_traits propagation table, block ownership by arena, foreign-arena deallocation",
-            "6 (thorough: 10) trait combinations x equal/unequal arenas x lists {F3,V3} (thorough 5 lists)", "3/C08"),
+            "6 (thorough: 10) trait combinations x equal/unequal arenas x lists {F3,V3} (thorough 5 lists), depth 5 (pair) / 3 (elements); exact count of move constructions for unequal-allocator move assignment", "3/C08"),
     "C09": ("model_checking", "pair", BFS + " over two vectors incl. moved-from operands, self-assignment, self-swap; oracle: two independent sequence models",
-            "5 (thorough 19) lists x {AE, NP equal, NP unequal}(+PP), capacities <= 2 (3), depth 4 (5)", "3/C09"),
+            "13 (thorough 19) lists x {AE, NP equal arenas, NP unequal arenas}(+PP), capacities <= 2 (3), depth 4-5", "3/C09"),
     "C10": ("model_checking", "hist(c10)", BFS + " with a rich reserve alphabet (n in {0,cap-1..cap+2} x 5 budgets, repeated reserve) followed by every fill of the reserved room; oracle: model unchanged, canonical state unchanged and no allocation when n <= capacity, capacity()==n otherwise, ASan on the fills",
-            "base states from histories of depth <= 3 (4)", "3/C10"),
+            "10 (19) lists; base states from histories of depth <= 3-4", "3/C10"),
     "C11": ("model_checking", "proxy", BFS + " over reference assignment (copy/move/const), swap, iter_swap, writes through every access path, std::rotate/reverse/swap_ranges with all argument triples; oracle: the same algorithm on the model vector, all access paths read back after every step",
-            "vectors of <= 3 (4) equally shaped elements, depth 2 (3) beyond set-up", "3/C11"),
+            "10 lists, vectors of <= 3 (4) equally shaped elements, depth 3 (4) beyond set-up; trivially swappable runs of 8..64 bytes (fixed sizes 6, 14, 30, ...); iterator algebra over all position pairs in every state; 12 negative + 1 positive compile-time constness cells per list", "3/C11"),
     "C12": ("model_checking", "elem", BFS + " over a pool of one vector and up to three ContiguousElements (construction from lvalue/rvalue/const references with/without allocator, copy/move construction incl. allocator-extended, copy/move assignment between different sizes, swap, element<->reference assignment, mutation, destruction)",
-            "lists {F3,V1,V3} (thorough 8) x {AE,NP}(+PP), depth 3 (4) beyond set-up", "3/C12"),
+            "8 lists x {AE, NP equal/unequal}(+PP), element sizes 1..3 varying objects, depth 2-3 (3-4) beyond set-up", "3/C12"),
     "C13": ("model_checking", "cmp", "exhaustive operand enumeration: all element pairs x 10 operand-kind combinations x 2 memory environments; all pairs of 21 vectors x 8 right-hand variants (capacity, arena, allocator type, used/fresh memory, junk); oracle: field-wise equality of the model incl. sizes, symmetry, negation",
-            "value domain {0,1,200} ({0,-0.0,1} for float), span lengths <= 2 (3), fixed sizes {1,2}; 7 (13) lists", "3/C13"),
+            "value domain {0,1,200} ({0,-0.0,1} for float), span lengths <= 2 (3), fixed sizes {1,2}; 10 (18) lists incl. padding between fields, padding between elements only, size-dependent padding", "3/C13"),
     "C14": ("model_checking", "cmp", "exhaustive operand enumeration as C13 plus all triples; oracle: order axioms, mutual consistency of the six operators, independence of operand kind/environment, vector < == lexicographical_compare under the implementation's own element <",
             "as C13; one known finding (K3)", "3/C14"),
     "C15": ("model_checking", "emplace", "exhaustive input-shape enumeration: stored type x source type x source form x length x {FixedSize, VaryingSize}; oracle: object representation of T(source item) computed independently, moved-from/untouched state of sources, dereference counts of single-pass sources",
-            "15 (21) type pairs x up to 20 forms x lengths 0..3", "3/C15"),
+            "15 (21) type pairs x up to 22 forms (incl. std::deque iterators across blocks) x lengths 0..3", "3/C15"),
     "C16": ("model_checking", "hist+pair", BFS + "; oracle: transition invariant on the absolute address of every stored object, data_begin(), capacity(), block identity and the allocator's allocation counter",
             "as C01 plus two-vector histories with swap and move construction", "3/C16"),
     "C17": ("fault_enumeration", "faults", "for every state of the bounded history/pair/element explorations and every operation, every allocation of that operation is made to throw in turn (1 injected failure); oracle: exception propagates (no terminate), ledger/registry clean after destroying all operands, source unchanged for reserve/copy construction",
             "lists {F1,F3,V1,V3} x {AE,NP}(+PP); depth 4 (5)", "3/C17"),
     "C18": ("model_checking", "hist(c18)", BFS + " with, at every empty state, the additional operations copy, copy-assign, swap with a fresh vector, all comparisons against empty vectors; oracle: size/empty/begin==end/data_begin==data_end pointing into or one past a live block or null; identical results under zeroed and junk-filled memory",
-            "11 (19) lists, capacities <= 2, depth 3 (5)", "3/C18"),
+            "19 lists, capacities <= 2, depth 5 (7); default-INITIALISED vectors (`Vec v;`) in junk-filled storage", "3/C18"),
     "C19": ("model_checking", "footprint", "every state of a bounded history exploration x every const operation, executed with every load/store logged (gcc -fsanitize=thread instrumentation linked against own callbacks); const operations have no synchronisation, so all interleavings of any number of threads are equivalent iff no const operation writes shared memory - that footprint condition is decided exhaustively; plus a free-running 16-thread ThreadSanitizer cross-check",
-            "6 (19) lists, states of depth <= 3 (5); accesses as instrumented by gcc", "3/C19"),
+            "11 (19) lists, states of depth <= 3 (5); accesses as instrumented by gcc", "3/C19"),
     "C20": ("exploration", "probe", "exhaustive enumeration of the finite matrix operation (41 cells) x parameter list (19) x allocator kind x language standard; each cell is one instantiation checked by the compiler (-fsyntax-only); there are no run-time states",
             "g++ 12 only; required cells derived from type traits", "3/C20"),
 }
